@@ -53,6 +53,9 @@ func init() {
 					// no empty messages on foreign errors inside Dom9
 					if (p[j].T == "leaf" || p[j].T == "single" || p[j].T == "multi" || p[j].T == "new") && p[j].Msg == "" {
 						p[j].Msg = "m0"
+						if r.Chance(1, 2) {
+							p[j].Msg = "kind1" // a foreign message that collides with a registered kind
+						}
 					}
 				}
 				d := c09Desc{Prog: p, Builtin: r.Chance(1, 3), Strict: r.Chance(1, 3), RegRev: r.Bool()}
